@@ -67,6 +67,13 @@ func valueSources(v ssa.Value, out map[string]bool, seen map[ssa.Value]bool, dep
 		out["call:"+trimPkg(staticCalleeName(&x.Call))] = true
 	case *ssa.Extract:
 		valueSources(x.Tuple, out, seen, depth+1)
+	case *ssa.Lookup:
+		valueSources(x.X, out, seen, depth+1)
+		valueSources(x.Index, out, seen, depth+1)
+	case *ssa.Slice:
+		valueSources(x.X, out, seen, depth+1)
+	case *ssa.TypeAssert:
+		valueSources(x.X, out, seen, depth+1)
 	default:
 		out["value:"+v.Name()] = true
 	}
